@@ -370,7 +370,14 @@ def gen_points(rng, t, k, n_in, data=None):
 
 
 def gen_coeff(rng, nc):
-    mode = rng.choice(['normal', 'int', 'ones', 'big'])
+    mode = rng.choice(['normal', 'int', 'ones', 'big', 'zeros', 'onehot'])
+    if mode == 'zeros':          # a freshly constructed spline: the validity mask does not depend on the coefficients
+        return [0.0] * nc
+    if mode == 'onehot':
+        v = [0.0] * nc
+        if nc:
+            v[rng.randrange(nc)] = 1.0
+        return v
     if mode == 'normal':
         return [rng.gauss(0, 1) for _ in range(nc)]
     if mode == 'int':
@@ -530,6 +537,10 @@ def check_eval(ctx, case, impl, model, model_rat):
     if 'err' in impl:
         if 'err' not in model or impl.get('err') != model.get('err'):
             ctx.disagree('eval', case, impl, model)
+        if allgood and N >= 2 * k and not np.any(np.diff(t) < 0) and t[k - 1] < t[k] and len(x) > 0 and len(case['coeff']) == n:
+            # inside the domain of the statement (legal knots, nothing masked, one coefficient per basis function) evaluation
+            # returns values and a mask - for points outside the breakpoint range too - and does not raise
+            ctx.violate('eval:raises:' + impl['err'], 'value() raises %s on a legal knot vector (points inside and slightly outside the range)' % impl['err'], case)
         return
     I = impl['ok']
     if I.get('history'):
